@@ -47,7 +47,7 @@ META = {
          'digests keyed by an ordered map feed the tree in key order; Ord(number, path); sorted listing; number <= beacon filter and beacon-exists guard; digest per entry from its cache entry or its bytes; cache failures cannot change the result; no clock/RNG/hash-order dependence',
          'byte sensitivity (hash); real directory layouts; cache staleness for changed files'),
  'C13': ('static analysis: effect ordering inside transactions + per-batch loop rules + embedded SQL comparison operators',
-         'roll-back = begin < 3 deletes bound to one block number < commit; every polled batch stored or rolled back with errors propagated; resume cursor written only after the loop; chunk-atomic store; SQL threshold directions',
+         'roll-back = begin < 3 deletes bound to one block number < commit; every polled batch stored or rolled back with errors propagated; resume cursor written only after the loop; chunk-atomic store; SQL threshold directions; foreign-key enforcement on every chain-data connection; the block streamer forwards every roll-back but the opening one',
          'convergence over histories; restart behaviour'),
  'C14': ('static analysis: must-pass-through per return kind + effect ordering + provenance + who-may-call + state-relation guards + embedded SQL operator',
          'create_certificate: flags, multi-signature, self-verification < store < mark; certificate field provenance; who stores certificates; Idle->Ready guards; epoch-initialisation order; gap test before walk; strict pruning threshold of open messages',
